@@ -42,9 +42,9 @@ TRANSLATORS = ["T-invfilters", "T-storedigest", "T-stateid", "T-pathslice", "T-p
 KNOWN = common.known_for("C15")  # entries live in /verif/known_findings.json
 
 ASSUMPTIONS = [
-    "C15_cover / C15_pass_sound are conditional on their visible hypotheses: per-transaction completeness of the symbolic engine (property C02), completeness of the invariant's own run, and the merge hypothesis (equal state ids stand for the same concrete states, also w.r.t. the setUp state) -- the latter is refuted for block fields and for the setUp timestamp (C15_merge_identical_refuted, C15_merge_setup_refuted) and the refutations are reproduced on the real code",
+    "C15_cover / C15_pass_sound are conditional on their visible hypotheses: per-transaction completeness of the symbolic engine (property C02), completeness of the invariant's own run, and the merge hypothesis (equal state ids stand for the same concrete states); with the state id of halmos (C15_cover_snapshot) the latter becomes: what a refreshed state stands for depends only on its balance / code / storage terms, its constraints on state variables and its block fields other than the timestamp; the setUp state is not registered as visited (regenerated flag), so no clause about it is needed",
     "state ids: C15_state_id_identical / C15_cover_snapshot assume collision-free hashes (xxh3_64 / xxh3_128 as injective functions into abstract digest types: a visible hypothesis), one storage-key shape per run (uniform_keys: visible hypothesis) and hash-consed terms (equal id = same term); a hash input is modelled as the list of its fixed-width items (32-byte words from int.to_bytes(_, length=32), 16-byte storage digests), not as bytes; CPython id() reuse for code objects and z3 AST id reuse are not modelled",
-    "the slice: Path._get_related / the dependency update of Path.append / Path.slice are regenerated and proved to give exactly the BACKWARD dependency closure of the state variables (C15_slice_exact); that this is smaller than the constraints on the state is a machine-checked witness (C15_slice_closure_refuted) reproduced on the real code (known finding). The variables of a term (Path.get_var_set, z3) and the sources of the state variables in Exec.path_slice (balance, symbolic code chunks, stored values: shape-checked by the translator) are inputs of the model: on every recorded state the symbols are recomputed from the z3 terms by the harness and the model's slice is compared with Path.sliced",
+    "the slice: the dependency update of Path.append and Path.slice (worklist closure, recognised statement by statement) are regenerated and proved to end within slice_fuel iterations and to give exactly the conditions that constrain the state variables (C15_slice_closure). The variables of a term (Path.get_var_set, z3) and the sources of the state variables in Exec.path_slice (balance, block fields but the timestamp, symbolic code chunks, stored values: shape-checked by the translator) are inputs of the model: on every recorded state the symbols are recomputed from the z3 terms by the harness and the model's slice is compared with Path.sliced",
     "the reference interpreter (Spec/Evm.v) is the EVM oracle; vm.roll/fee/chainId/warp in handlers are given their Foundry meaning by the harness (the block field changes for the rest of the sequence)",
     "probes: the solver's answer for a candidate is an input of the probe model (C15_probe_genuine_reported assumes that every submitted query is answered: on the real code the answers of the last depth are often cut off by the executor shutdown, known finding F12); feasibility of a failing path is decided by the harness with z3 on the path conditions",
     "the extracted model and driver are faithful to the Coq definitions (extraction is trusted)",
